@@ -223,9 +223,9 @@ func VerifC07_EndOfInputWhileRunning() {
 	if orderly {
 		verifAssert("C07/eoi/exactly-one-terminal", c.terminals["r1"] == 1)
 	} else {
-		// an abrupt end of input is reported as a server-fatal error, which ends every run at the client; a
-		// per-run terminal message may still follow (the step succeeds) but is no longer owed
-		verifAssert("C07/eoi/at-most-one-terminal-after-abrupt-end", c.terminals["r1"] <= 1)
+		// an abrupt end of input is reported as a server-fatal error; the output is still open, so the run
+		// that was in flight is answered all the same
+		verifAssert("C07/eoi/exactly-one-terminal-after-abrupt-end", c.terminals["r1"] == 1)
 		verifAssert("C07/eoi/abrupt-end-reported", c.others >= 1)
 	}
 	verifObserve("terminals", c.terminals["r1"])
@@ -261,3 +261,60 @@ func VerifC07_EndRightAfterStart() {
 }
 
 func init() { verifRegister("VerifC07_EndRightAfterStart", VerifC07_EndRightAfterStart) }
+
+// several steps are still running when the input ends; each then fails: RunATPServer must still return (the error
+// channel has room for three errors only) and report every failure
+func VerifC07_ManyFailuresAfterEndOfInput() {
+	mode := 1 + nondetChoice("behaviour", behaveCount-1) // a failing behaviour
+	release := make(chan struct{})
+	c := verifStartRawClient(verifBehavingPlugin(mode, release))
+	verifReach("C07/manyfail/started")
+	nRuns := 4 + nondetChoice("extraRuns", 2)
+	ids := [5]string{"r1", "r2", "r3", "r4", "r5"}
+	for i := 0; i < nRuns; i++ {
+		_ = c.enc.Encode(RuntimeMessage{MessageTypeWorkStart, ids[i], WorkStartMessage{StepID: "inc", Config: map[string]any{"n": int64(i)}}})
+	}
+	verifSettle()
+	orderly := nondetBool("clientDone")
+	if orderly {
+		_ = c.enc.Encode(RuntimeMessage{MessageTypeClientDone, "", clientDoneMessage{}})
+	} else {
+		_ = c.toSrvW.Close()
+	}
+	verifSettle()
+	close(release)
+	c.srvDone.Wait()
+	c.readDone.Wait()
+	for i := 0; i < nRuns; i++ {
+		verifAssert("C07/manyfail/exactly-one-terminal-per-run", c.terminals[ids[i]] == 1)
+	}
+	verifReach("C07/manyfail/end")
+}
+
+func init() { verifRegister("VerifC07_ManyFailuresAfterEndOfInput", VerifC07_ManyFailuresAfterEndOfInput) }
+
+// a message that lacks the run_id field altogether (not an empty one) after a message that carried one: it must be
+// treated as what it is - a message without run id - and not inherit the previous message's id
+func VerifC07_AbsentRunIDField() {
+	c := verifStartRawClient(verifBehavingPlugin(behaveOK, nil))
+	verifReach("C07/absentid/started")
+	_ = c.enc.Encode(RuntimeMessage{MessageTypeWorkStart, "r1", WorkStartMessage{StepID: "inc", Config: map[string]any{"n": nondetInt64("n1")}}})
+	verifSettle()
+	kind := nondetChoice("kind", 2)
+	if kind == 0 {
+		// a work-start with no run_id field
+		_ = c.enc.Encode(map[string]any{"id": uint32(MessageTypeWorkStart), "data": map[string]any{"id": "inc", "config": map[string]any{"n": int64(7)}}})
+	} else {
+		// a signal with no run_id field
+		_ = c.enc.Encode(map[string]any{"id": uint32(MessageTypeSignal), "data": map[string]any{"id": "sig", "data": map[string]any{}}})
+	}
+	verifSettle()
+	_ = c.enc.Encode(RuntimeMessage{MessageTypeClientDone, "", clientDoneMessage{}})
+	c.srvDone.Wait()
+	c.readDone.Wait()
+	verifAssert("C07/absentid/first-run-answered-exactly-once", c.terminals["r1"] == 1)
+	verifAssert("C07/absentid/message-without-run-id-reported", c.others >= 1)
+	verifReach("C07/absentid/end")
+}
+
+func init() { verifRegister("VerifC07_AbsentRunIDField", VerifC07_AbsentRunIDField) }
